@@ -7,7 +7,7 @@ from . import c19_r4
 from . import c19_tas, c19_har, c19_lbp, c19_big
 
 ID = 'C19'
-FOUNDATIONS = ['harness.foundation.cscalar']   # ties of the C++ helper functions the model rests on (generated from their text)
+FOUNDATIONS = ['harness.foundation.cscalar', 'harness.foundation.pybody']   # ties of the C++ helper functions the model rests on (generated from their text)
 LEVEL = 'proof'
 RULE = ('corpus; cooccurence: integer images of 2-3 dimensions with 1..64 grey levels (and the dtype maximum) x every '
         'direction (4/13) x distances 1-3 x symmetric on/off x output None / preallocated / one too small; haralick: '
